@@ -126,7 +126,7 @@ def relevant_pc(ob, depth):
     return [t for j, (ss, t) in enumerate(psyms) if chosen[j]]
 
 
-def discharge(ob, timeout_ms=20000, use_cvc5=True, cross=False):
+def discharge(ob, timeout_ms=20000, use_cvc5=True, cross=False, shared=None):
     """sets ob.verdict: 'proved' | 'refuted' | 'unknown'"""
     t0 = time.time()
     if z3.is_true(z3.simplify(ob.goal)):
@@ -137,7 +137,10 @@ def discharge(ob, timeout_ms=20000, use_cvc5=True, cross=False):
         try:
             from .seqabs import abstract_check
 
-            r1 = abstract_check(ob.pc, ob.goal, min(timeout_ms, 8000))
+            if shared is not None:
+                r1 = shared.prove(ob.pc, ob.goal, min(timeout_ms, 8000))
+            else:
+                r1 = abstract_check(ob.pc, ob.goal, min(timeout_ms, 8000))
         except Exception as e:  # pragma: no cover - never let the pre-pass break a run
             r1 = None
             ob.note = "seqabs failed: %s" % str(e)[:80]
